@@ -370,6 +370,27 @@ def ops():
         plt.close("all")
     O["draw+render(every-switch-on)"] = render_all_on
 
+    def render_focused(sc, pps):
+        # a renderer that follows one obstacle inside fixed plot limits (as the video helpers do): every obstacle in turn, at two time steps
+        import matplotlib
+        matplotlib.use("Agg")
+        import matplotlib.pyplot as plt
+        from commonroad.visualization.mp_renderer import MPRenderer
+        from commonroad.visualization.draw_params import MPDrawParams
+        for o in list(sc.obstacles):
+            for t in (0, 1):
+                rnd = MPRenderer(plot_limits=[-20.0, 20.0, -10.0, 10.0], focus_obstacle=o)
+                dp = MPDrawParams()
+                dp.time_begin = t
+                dp.time_end = t + 2
+                try:
+                    sc.draw(rnd, dp)
+                    rnd.render()
+                except Exception:
+                    pass        # (totality is C19's question)
+                plt.close("all")
+    O["draw+render(focus-obstacle,plot-limits)"] = render_focused
+
     def derive_networks(sc, pps):
         # building NEW networks from this one's lanelets (the library copies them) leaves this one as it is
         from commonroad.scenario.lanelet import LaneletNetwork
